@@ -13,7 +13,7 @@ CHECKS = {
          "Generated records of all five content types (1..12 messages, all alert codes, 17 handshake kinds, app data 0..16640, heartbeat with padding) must decode to exactly the model messages by both routes; empty / cut-short / malformed-first / unknown-type records must be rejected by both routes; valid prefix + invalid tail must yield the prefix and the tail as two-step remainder; on corrupted and random records the two routes must agree; handshake messages of 64 KiB, 10 MiB +- 1 and 2^24 - 1 body bytes followed by a second message through the payload parser.",
          "Trusts the harness's RFC encoders (vmodel) and the field-by-field conversion of parsed values; sampling, not exhaustive.", "4/C03"),
  "C04": ("proptest-generated handshake values with an RFC reference encoder (round-trip incl. every public body parser), targeted single-field corruptions, exhaustive type-code sweep",
-         "Round-trip over generated values of the 17 variants with boundary-weighted field ranges and trailing bytes shaped like a continuation; each rejection rule of the statement instantiated by one targeted edit of a valid encoding, checked stand-alone and inside a record; two encodings that decode to field-wise different values must not compare equal, clones and clone_from copies (message, handshake enum, contents struct, Option, Vec) equal their source; all 256 type codes x 3 body shapes; bodies up to 2^24-1.",
+         "Round-trip over generated values of the 17 variants with boundary-weighted field ranges and trailing bytes shaped like a continuation; each rejection rule of the statement instantiated by one targeted edit of a valid encoding, checked stand-alone and inside a record; two encodings that decode to field-wise different values must not compare equal, clones and clone_from copies (message, handshake enum, contents struct, Option, Vec) equal their source; the one Certificate whose framing reads as DER; all 256 type codes x 3 body shapes; bodies up to 2^24-1.",
          "Trusts the harness's RFC encoders; CertificateRequest cuts are asserted up to one byte into the length that follows the type list (beyond that the pre-1.2 layout makes a cut body decodable); the equality sub-check relies on the field-by-field conversion to tell when two decoded values differ.", "4/C04"),
  "C05": ("exhaustive sweep of all 65536 extension types through 3 dispatchers and 16 single-purpose parsers + proptest-generated extensions and lists with a reference encoder",
          "Classification (typed / Grease / Unknown), type-tag conversion, dispatcher agreement, single-purpose parser type discipline are enumerated over the whole 16-bit type space; contents, lists, must-be-empty (alone and inside a list, through the three list parsers) and overlong rules are generated; blocks that decode to field-wise different values must not compare equal; the catch-all unknown-extension parser called directly returns exactly the declared bytes.",
@@ -22,7 +22,7 @@ CHECKS = {
          "Every cell of the relation is compared with a model transcribed from the documented flows; because the machine is memoryless beyond its state, cell-completeness implies agreement on every finite sequence; content-independence is sampled with generated payloads of every kind (structured ServerKeyExchange bodies, DER-shaped certificates, OCSP responses); random walks cross-check the composition.",
          "The reference model (vmodel/src/states.rs) is the harness's reading of the flows named in the statement.", "4/C08"),
  "C12": ("exhaustive enumeration: every registry row x 10 columns against an independent re-parse of the IANA text file and a pinned golden copy, all 65536 ids x 4 lookup routes; proptest-generated name perturbations",
-         "Registry content, id lookups, derived sizes and name-token consistency are finite and enumerated completely; name lookup is probed with generated near-miss strings, 128 million generated unregistered names every prefix / suffix of the registry's own name strings and some forty other spellings of every row (id as text, other separators, other libraries' names); a scratch copy of the tree is built, its list edited (generated row appended, row renamed, row deleted) and built again in the same target directory, and a probe program must see the edited list.",
+         "Registry content, id lookups, derived sizes and name-token consistency are finite and enumerated completely; name lookup is probed with generated near-miss strings, 128 million generated unregistered names every prefix / suffix of the registry's own name strings and some forty other spellings of every row (id as text, other separators, other libraries' names); fresh processes whose first registry use is 8-16 threads resolving every name at once; a scratch copy of the tree is built, its list edited (generated row appended, row renamed, row deleted) and built again in the same target directory, and a probe program must see the edited list.",
          "Trusts scripts/tls-ciphersuites.txt as the specification and the golden copy taken from the pinned tree; enum variants compared via Debug names.", "4/C12"),
  "C17": ("exhaustive enumeration of every value of 18 registry newtypes against IANA tables typed into the harness, and of the text 31 composite structures print for their registry-typed fields",
          "All named constants, Display/Debug of every integer of each domain, all conversions over all u16/u8 values, SignatureScheme split and key_bits for all 65536 groups; lists of 130 / 300 entries printed whole; Display / LowerHex of ids under format flags.",
@@ -31,16 +31,16 @@ CHECKS = {
 
 CHECKS.update({
  "C01": ("proptest-generated inputs (byte soup, every model encoder with 0..3 corruptions, allocation-dense shapes, asset prefixes) through ~120 entry points (plus every public parse function and Nom-deriving type found in the sources of the tree under test at build time that the table does not name) under a counting allocator, panic capture and a watchdog; generated operation histories on the defragmenter; libFuzzer campaigns in the thorough tier",
-         "Every public parsing entry point is called on every generated input with generated extra arguments; results are formatted ({:?}, {:#?}, Display, under precision / width / sign / zero / hex flags, and into writers that fail after k bytes); a panic (debug assertions and overflow checks are on), an allocation beyond 64 KiB + K*len, or a stall is a violation. Histories of up to 40 (thorough 700) operations drive one TlsRecordsParser to the 10 MiB cap. Nine list parsers run on 200 000 (thorough 2 000 000) minimal elements in an unoptimised probe process with a 2 MiB stack (stack depth). Absence of panics cannot be established by sampling; the evidence reports how much was explored.",
+         "Every public parsing entry point is called on every generated input with generated extra arguments; results are formatted ({:?}, {:#?}, Display, under precision / width / sign / zero / hex flags, and into writers that fail after k bytes); a panic (debug assertions and overflow checks are on), an allocation beyond 64 KiB + K*len, or a stall is a violation. Histories of up to 40 (thorough 700) operations drive one TlsRecordsParser to the 10 MiB cap. Nine list parsers run on 200 000 (thorough 2 000 000) minimal elements in an unoptimised probe process with a 2 MiB stack (stack depth); one parser takes 4.5 GB in 270 900 calls (32-bit totals). Absence of panics cannot be established by sampling; the evidence reports how much was explored.",
          "Termination is observed through a watchdog, not proved; allocation is counted per calling thread.", "4/C01"),
  "C06": ("metamorphic relation P(b) vs P(b++x) over 40 self-delimiting parsers with proptest-generated structures, corruptions and suffixes; pointer-provenance oracle over every reachable slice (hand-written visitor); defragmenter provenance over generated histories",
          "Appending bytes (up to 16 MiB, and zero-filled buffers of 2^32 + k bytes) must not change value or outcome class and must extend the remainder (also when an inner length field is raised by a multiple of 256 / 65536 in front of that many bytes of valid structures); every non-empty slice reachable from a returned value must lie inside the consumed part of the caller's buffer (or, for defragmented results, inside the internal buffer exposed by the hook).",
          "Values compared after conversion to model types; empty slices carry no provenance.", "4/C06"),
  "C07": ("model-based stateful testing: proptest-generated operation histories interpreted against a reference model (accumulate then one-shot parse) and a shadow fresh parser; targeted split / refusal / size-cap generators",
-         "k-way splits of generated handshake and heartbeat payloads, refusals (foreign type, nocopy, 10 MiB) with state preservation observed through the hook, histories of up to 120 operations in lock step with the model, exact boundary of the size limit, heartbeat messages of up to 3+65535+padding bytes in records within the cap with fragment boundaries steered onto 65535..65539 accumulated bytes; continuation records of 2^32 +- k bytes must be refused; a defragmentation left alone for 2 s (quick) / 65 s (thorough) completes as if no time had passed.",
+         "k-way splits of generated handshake and heartbeat payloads, refusals (foreign type, nocopy, 10 MiB) with state preservation observed through the hook, histories of up to 120 operations in lock step with the model, exact boundary of the size limit, heartbeat messages of up to 3+65535+padding bytes in records within the cap with fragment boundaries steered onto 65535..65539 accumulated bytes; continuation records of 2^32 +- k bytes must be refused; a defragmentation left alone for 2 s (quick) / 65 s (thorough) completes as if no time had passed; a parser that has seen a hello with negotiating extensions treats later records like a fresh one.",
          "The model answers with the public one-shot parser on its own concatenation; where the statement is silent the model adopts the implementation's observable state.", "4/C07"),
  "C09": ("proptest-generated serializable values; oracle = byte equality with the harness's RFC encoder + parse-back round trip + re-serialization; unsupported values must give NotYetImplemented",
-         "Messages, records (constructed and obtained by parsing), extensions and extension lists within wire limits (incl. bodies beyond 16 bits); every unsupported handshake variant, message kind and extension; the same records and extension lists through cookie_factory::gen into byte slices and cursors of every capacity around the full length and into a writer taking a few bytes per call (success only with every byte written and the reported position equal to their number).",
+         "Messages, records (constructed and obtained by parsing), extensions and extension lists within wire limits (incl. bodies beyond 16 bits); every unsupported handshake variant, message kind and extension; the same records and extension lists through cookie_factory::gen into byte slices and cursors of every capacity around the full length and into a writer taking a few bytes per call (success only with every byte written and the reported position equal to their number); one serializer value used three times, the first time into a writer that is too small.",
          "The harness's RFC encoder is the reference for emitted bytes; built with the crate's serialize feature.", "4/C09"),
  "C10": ("exhaustive enumeration of DTLS declared lengths x content types x cut points + proptest-generated DTLS records, handshake headers over full 24-bit ranges and datagrams, against reference header decoders and the model encoder",
          "13-byte header fields (epoch / 48-bit sequence split), cap, Incomplete contract with exact Needed, fragment predicate and header fields verbatim, supported bodies, multi-record datagrams, records packed to the cap with the smallest messages of each kind; the DTLS ChangeCipherSpec / alert message parsers against their TLS siblings on every input of 0..2 bytes.",
@@ -55,7 +55,7 @@ CHECKS.update({
          "Lists of 0..8 SCTs with full-range fields, single-entry parser, entries exceeding the list, lists exceeding the input, prefixes, entries and lists of exactly 65531..65535 bytes; lists at the start of buffers of 10 MiB +- 1, 16 MiB and 2^32 + k bytes.",
          "Model encoder per RFC 6962 3.2/3.3.", "4/C14"),
  "C15": ("proptest-generated parsed and constructed hellos (TLS and DTLS); oracle = accessor equals (and aliases) the field, rand_time/rand_bytes by reference computation, cipher accessors against the harness's own registry table",
-         "All trait accessors and inherent getters on parsed TLS/DTLS ClientHello, constructed values with randoms of any length (accessors by method syntax, trait path and trait object must agree; vectors with spare capacity; fields edited after construction), ServerHello constructor and getters; accessors through a reference to a reference; one fresh process per registered id in which that id is the first registry lookup.",
+         "All trait accessors and inherent getters on parsed TLS/DTLS ClientHello, constructed values with randoms of any length (accessors by method syntax, trait path and trait object must agree; vectors with spare capacity; fields edited after construction), ServerHello constructor and getters; accessors through a reference to a reference; 16 hello versions x all 65536 ids through the cipher accessors; one fresh process per registered id in which that id is the first registry lookup.",
          "For randoms shorter than 4 bytes only absence of panics and agreement between the dispatch routes is required.", "4/C15"),
  "C16": ("differential: multi-record parsers vs an explicit loop over the single-record parser on proptest-generated record concatenations with six kinds of endings; alias differential on soup and corrupted structures",
          "Records, remainder position and failure condition must match the loop exactly (also for runs of thousands of identical or empty records and for 11 MiB of valid records in one buffer); the deprecated alias must be identical including errors.",
